@@ -128,6 +128,7 @@ type NegScript struct {
 	TLS13Only    bool     `json:"tls_1_3_only,omitempty"` // the server refuses anything below TLS 1.3 (alert protocol_version)
 	AuthReply    int      `json:"auth_reply"`
 	AuthCond     string   `json:"auth_cond,omitempty"`
+	AuthFailDrop int      `json:"after_auth_failure,omitempty"` // after <failure/>: 1 = the server ends the stream and closes, 2 = it resets the connection once the client has read the failure
 	Session      int      `json:"session"`
 	SM           bool     `json:"sm"`
 	Resume       int      `json:"resume_reply"`
@@ -566,6 +567,19 @@ func (sc *SrvConn) handle(it *Item) {
 				cond = "not-authorized"
 			}
 			sc.Send("<failure xmlns='" + nsSASL + "'><" + cond + "/></failure>")
+			switch scr.AuthFailDrop {
+			case 1:
+				sc.CloseGracefully()
+			case 2:
+				// a server that drops the connection of a client it has refused
+				sc.e.Go("srv.drop", func() {
+					sc.e.WaitUntilFor("srv.drop", 5*time.Second, func() bool { return sc.Pipe.Cli.TotalRead >= sc.End.TotalWritten })
+					sc.e.Logf("srv.reset", "%s after <failure/>", sc.name())
+					sc.closedByUs = true
+					sc.Dead = true
+					sc.End.Reset()
+				})
+			}
 		case AuthChallenge:
 			sc.Send("<challenge xmlns='" + nsSASL + "'>" + base64.StdEncoding.EncodeToString([]byte("realm=x")) + "</challenge>")
 		case AuthStanza:
